@@ -94,7 +94,34 @@ fn app() -> Ohkami {
         trace::push(Ev::Handler(41, [vec![a.to_string(), b], show_form(&q), vec![t.map(|t| t.0).unwrap_or("<none>".into())]].concat()));
         async { "ok" }
     })));
+    // every arity of the handler signature: one and two path params with 0-4 further items (each arity is a separate impl in ohkami)
+    macro_rules! arity {
+        ($route1:literal, $route2:literal, $id1:expr, $id2:expr $(, $x:ident : $t:ty)*) => {
+            items.push(hook::Item::Handlers($route1.GET(|a: u32 $(, $x: $t)*| { $( let _ = &$x; )* trace::push(Ev::Handler($id1, vec![a.to_string()])); async { "ok" } })));
+            items.push(hook::Item::Handlers($route2.GET(|(a, b): (u32, i64) $(, $x: $t)*| { $( let _ = &$x; )* trace::push(Ev::Handler($id2, vec![a.to_string(), b.to_string()])); async { "ok" } })));
+        };
+    }
+    arity!("/m0/:a", "/n0/:a/:b", 500, 510);
+    arity!("/m1/:a", "/n1/:a/:b", 501, 511, x1: Option<Text<String>>);
+    arity!("/m2/:a", "/n2/:a/:b", 502, 512, x1: Option<Text<String>>, x2: Option<JSON<Doc>>);
+    arity!("/m3/:a", "/n3/:a/:b", 503, 513, x1: Option<Text<String>>, x2: Option<JSON<Doc>>, x3: Option<URLEncoded<Form>>);
+    arity!("/m4/:a", "/n4/:a/:b", 504, 514, x1: Option<Text<String>>, x2: Option<JSON<Doc>>, x3: Option<URLEncoded<Form>>, x4: Option<Text<String>>);
     hook::assemble(None, items)
+}
+
+/// one or two integer params in front of k = 0..4 optional items; the params must reach the handler each from its own segment
+fn gen_arity_case(rng: &mut Rng) -> Case {
+    let k = rng.below(5);
+    let a = rng.below(1000) as u32;
+    let b = -(rng.below(1000) as i64) - 1000; // never equal to a, and negative: only the i64 position takes it
+    if rng.bool() {
+        Case { method: "GET", target: format!("/m{k}/{a}"), headers: vec![], body: vec![], expect: Some(Some((500 + k as u32, vec![a.to_string()]))), class: format!("arity:1+{k}") }
+    } else if rng.chance(1, 4) {
+        // the second segment is no integer: the handler must not run, whatever the first one is
+        Case { method: "GET", target: format!("/n{k}/{a}/{b}x"), headers: vec![], body: vec![], expect: None, class: format!("arity:2+{k}:bad-second") }
+    } else {
+        Case { method: "GET", target: format!("/n{k}/{a}/{b}"), headers: vec![], body: vec![], expect: Some(Some((510 + k as u32, vec![a.to_string(), b.to_string()]))), class: format!("arity:2+{k}") }
+    }
 }
 
 /* ------------------------------ inputs ------------------------------ */
@@ -352,7 +379,7 @@ pub fn run(args: &Args, rep: &mut Report) {
             let mut rng = Rng::derive(args.seed, 7, case);
             let n = if small { 6 } else { 40 };
             for _ in 0..n {
-                let c = if rng.chance(3, 5) { gen_param_case(&mut rng) } else { gen_body_case(&mut rng) };
+                let c = if rng.chance(1, 8) { gen_arity_case(&mut rng) } else if rng.chance(3, 5) { gen_param_case(&mut rng) } else { gen_body_case(&mut rng) };
                 check(rep, case, &router, &c);
             }
             rep.end(case);
